@@ -96,7 +96,7 @@ func cmdRun(args []string) {
 		fmt.Println("INCONCLUSIVE:", i)
 	}
 	for _, v := range r.Violations {
-		fmt.Printf("VIOLATION tag=%s known=%q where=%s obs=%v\n   values=%v\n", v.Tag, v.Known, v.Where, v.Obs, v.Values)
+		fmt.Printf("VIOLATION tag=%s known=%q where=%s obs=%v\n   values=%v\n   choices=%v notes=%v\n", v.Tag, v.Known, v.Where, v.Obs, v.Values, v.Choices, v.PathNotes)
 	}
 	var names []string
 	for n := range stats.By {
